@@ -819,6 +819,14 @@ fn reverse_ask(
         );
     }
 
+    // keep the approver's escrowed base in step with the remaining ask size
+    if let AskOrderClass::Convertible {
+        status: AskOrderStatus::Ready { converted_base, .. },
+    } = &mut ask_order.class
+    {
+        converted_base.amount = ask_order.size;
+    }
+
     // remove the ask order from storage if remaining size is 0, otherwise, store updated order
     if ask_order.size.is_zero() {
         ASKS_V1.remove(deps.storage, ask_order.id.as_bytes());
